@@ -480,3 +480,16 @@ func vfsMkdirTemp(dir, pattern string) (string, error) {
 	vfs.dirs["/vfs"] = true
 	return "/vfs", nil
 }
+
+// vfsMmap models a read-only file-backed mapping (or an anonymous one for a nil file) as a copy
+// of the file model's bytes.
+func vfsMmap(f *os.File, offset int64, length int) ([]byte, error) {
+	b := make([]byte, length)
+	if f == nil {
+		return b, nil
+	}
+	if _, err := vfsReadAt(f, b, 0); err != nil && err != io.EOF {
+		return nil, err
+	}
+	return b, nil
+}
